@@ -1,4 +1,98 @@
 package main
 
-func selftest() int      { return 0 }
-func replayFile(string) int { return 0 }
+import (
+	"encoding/json"
+	"fmt"
+	"os"
+
+	"verif/engine/gosx"
+)
+
+// replayFile re-runs a recorded counterexample against the current /repo tree natively.
+// Exit 1 (with a VIOLATION line) if it still reproduces, 0 if it no longer does.
+func replayFile(path string) int {
+	b, err := os.ReadFile(path)
+	if err != nil {
+		fatal(err)
+	}
+	var rec struct {
+		Property string
+		Key      string
+		What     string
+		Replay   map[string]json.RawMessage
+	}
+	if err := json.Unmarshal(b, &rec); err != nil {
+		fatal(err)
+	}
+	var kind string
+	json.Unmarshal(rec.Replay["kind"], &kind)
+	extra := map[string][]byte{}
+	switch rec.Property {
+	case "C04":
+		src, _ := genC04Lemmas()
+		extra["zz_verif_c04.go"] = []byte(src)
+	}
+	for name, gen := range extraOverlays {
+		if name == rec.Property {
+			for k, v := range gen() {
+				extra[k] = v
+			}
+		}
+	}
+	c := newCtx("REPLAY", "quick", 1, "other", extra)
+	defer c.Close()
+	reproduced := false
+	switch kind {
+	case "harness":
+		var h string
+		var vec gosx.Model
+		json.Unmarshal(rec.Replay["harness"], &h)
+		json.Unmarshal(rec.Replay["vec"], &vec)
+		var assertion string
+		json.Unmarshal(rec.Replay["assertion"], &assertion)
+		var resp struct {
+			Failed    []string
+			HostPanic string
+		}
+		out, err := c.Native.RunOnce(map[string]interface{}{"Op": "harness", "Harness": h, "Vec": vec}, &resp, 60)
+		fmt.Printf("harness %s vec %v → failed=%v hostpanic=%q err=%v\n%s\n", h, vec, resp.Failed, resp.HostPanic, err, lastLines(out, 5))
+		for _, f := range resp.Failed {
+			if f == assertion {
+				reproduced = true
+			}
+		}
+		if err != nil || resp.HostPanic != "" {
+			reproduced = true
+		}
+	case "prog":
+		p := &Prog{}
+		json.Unmarshal(rec.Replay["src"], &p.Src)
+		json.Unmarshal(rec.Replay["entry"], &p.Entry)
+		json.Unmarshal(rec.Replay["params"], &p.Params)
+		json.Unmarshal(rec.Replay["results"], &p.Results)
+		json.Unmarshal(rec.Replay["mode"], &p.Mode)
+		json.Unmarshal(rec.Replay["strlen"], &p.StrLen)
+		var m gosx.Model
+		json.Unmarshal(rec.Replay["model"], &m)
+		ok, detail := c.replayProg(p, m)
+		fmt.Printf("program:\n%s\ninputs: %s\ngoat: %v\ngo:   %v\n", p.Src, modelString(m), detail["goat"], detail["go"])
+		reproduced = ok
+	default:
+		if f := replayKinds[kind]; f != nil {
+			reproduced = f(c, rec.Replay)
+		} else {
+			fatal(fmt.Errorf("unknown replay kind %q", kind))
+		}
+	}
+	if reproduced {
+		fmt.Printf("VIOLATION property=%s replay=%s\n", rec.Property, path)
+		return 1
+	}
+	fmt.Println("not reproduced on the current tree")
+	return 0
+}
+
+var extraOverlays = map[string]func() map[string][]byte{}
+var replayKinds = map[string]func(c *Ctx, r map[string]json.RawMessage) bool{}
+
+func selftest() int { return runSelftest() }
